@@ -245,6 +245,14 @@ class C09(Prop):
                 progs = [[{"name": "g0", "nodes": [dict(gate, name="na"), ta, tb], "bound": []}], [{"name": "g0", "nodes": [dict(gate, name="na", fallback="tb"), ta, tb], "bound": []}]]
                 for pr in progs:
                     pr[0]["nodes"][0]["targets"] = ["ta", "tb"]
+                twin_variant = getattr(self, "_twin_variant", 0) + 1
+                self._twin_variant = twin_variant
+                if twin_variant % 2 == 0:
+                    # ... or differ ONLY by multi_target (same function, same targets, no fallback): the multi-target gate must not be
+                    # served the single decision of the other one
+                    g1 = dict(gate, name="na", fallback=None)
+                    g2 = dict(g1, multiTarget=True)
+                    progs = [[{"name": "g0", "nodes": [g1, ta, tb], "bound": []}], [{"name": "g0", "nodes": [g2, ta, tb], "bound": []}]]
                 if rng.random() < 0.5:
                     progs.reverse()
                 yield {"kind": "runs2", "programs": progs, "values": [["x", rng.choice([0, 0, 1, 2, 5])]],
